@@ -98,7 +98,10 @@ def defects(rng, line, sep, tree=None, style=None):
         stable = all(occurrences(cand.replace(x, ''), tuple(y if y != x else None for y in sep)) ==
                      occurrences(neutral.replace(x, ''), tuple(y if y != x else None for y in sep))
                      for x in (p, s, w) if x and x != ' ')
-        if reference_reject(cand, sep, True) == 'punctuation' and occurrences(cand, sep) == occurrences(neutral, sep) and stable:
+        # ... and it neither damages nor completes an occurrence of the line itself (the phone separator ' ' is
+        # counted apart: the mark comes with its own space)
+        same = all(a == b for a, b, x in zip(occurrences(cand, sep), occurrences(line, sep), sep) if x != ' ')
+        if reference_reject(cand, sep, True) == 'punctuation' and same and occurrences(cand, sep) == occurrences(neutral, sep) and stable:
             out.append(('punctuation-separator-char', cand))
             break
     if s and p == ' ' and (' ' + s + ' ' + w) in line:
